@@ -702,7 +702,19 @@ impl Shadow {
                 }
             }
             if cfg.invalid > 0 && rng.chance(1, cfg.invalid * 2) {
-                v.push(l(vec![a(7), a(1), l(vec![a(3), hnd(0)])])); // nested complex selector
+                // nested complex selector (refused), at any position, its members of any kind: they
+                // must not leave anything behind either
+                let mut inner = vec![a(7), a(1 + rng.below(3) as i64)];
+                for _ in 0..1 + rng.below(2) {
+                    if let Some(t) = self.gen_simple_target(rng, cfg, 1) {
+                        inner.push(t);
+                    }
+                }
+                if inner.len() == 2 {
+                    inner.push(l(vec![a(3), hnd(0)]));
+                }
+                let at = 2 + rng.below(v.len() - 1);
+                v.insert(at, l(inner));
             }
             if v.len() > 2 {
                 return Some(l(v));
